@@ -47,10 +47,11 @@ Definition sadd (s t : Z) : Z := (s + t) mod M32.
 Record variant := mkVariant {
   v_diff : bool;     (* Difference adds 2^32 *)
   v_fin : bool;      (* FIN bumps nextSeq only when the FIN segment itself was handled in order *)
-  v_keep : bool      (* cleanSG: the KeepFrom offset applies to the first kept container only *)
+  v_keep : bool;     (* cleanSG: the KeepFrom offset applies to the first kept container only *)
+  v_syn : bool       (* a SYN seen after nextSeq is known still takes one sequence number *)
 }.
-Definition origv : variant := mkVariant false false false.
-Definition fixedv : variant := mkVariant true true true.
+Definition origv : variant := mkVariant false false false false.
+Definition fixedv : variant := mkVariant true true true true.
 
 Definition diffv (v : variant) (s t : Z) : Z := if v_diff v then diff s t else diff_orig s t.
 
@@ -436,7 +437,8 @@ Definition assemble (v : variant) (s0 : st) (g : segment) : st * list event * bo
         else if start then (g_seq g, g_seq g, false, [ETag 17])
         else (g_seq g, INVALID, true, [])
       else
-        (g_seq g, h_next h, (diffv v (h_next h) (g_seq g) >? 0), []) in
+        let seq := if v_syn v && g_syn g then sadd (g_seq g) 1 else g_seq g in
+        (seq, h_next h, (diffv v (h_next h) seq >? 0), []) in
     let h := set_next h next1 in
     let lend_ := g_rst g || g_fin g in
     if queue then
@@ -520,4 +522,4 @@ Fixpoint run_trace (v : variant) (s : st) (ops : list op) : list (list event * Z
   end.
 
 Definition run_fixed (ops : list op) := run_trace fixedv init ops.
-Definition run_variant (d f k : bool) (ops : list op) := run_trace (mkVariant d f k) init ops.
+Definition run_variant (d f k y : bool) (ops : list op) := run_trace (mkVariant d f k y) init ops.
